@@ -13,32 +13,15 @@ sub-trees, build leaves, and copy option words / tags), `toR` / `fromR` translat
 and `reduce`, `elim`, `finalOptimize`, `reduceRoot` keep `capN`; `toGo` turns `capN` into `Writer.capsOk`.
 -/
 import RegexVerif.Lemmas.Reduce
+import RegexVerif.Model.ChainHyps
 
 namespace RegexVerif.Reduce
 open RegexVerif
 open RegexVerif.RewriteDecisions (RNode CP LK)
 
-/-- the per-node condition: `sl` = "this group number maps to a slot of the capture array" -/
-def capQ (sl : Int → Bool) (t : Nat) (m n : Int) : Bool :=
-  if t == 13 || t == 33 then decide (0 ≤ m) && decide (m ≤ maxInt32) && sl m
-  else if t == 28 then
-    decide (-1 ≤ m) && decide (m ≤ maxInt32) && decide (-1 ≤ n) && decide (n ≤ maxInt32) &&
-      (if n == -1 then sl m else (m == -1 || sl m) && sl n)
-  else if t == 29 then m == 0
-  else true
-
 /-- an option word that is a tag of `toR` names a node that satisfies `capQ` -/
 def tagQ (sl : Int → Bool) (o : Nat) : Bool :=
   !isTag o || capQ sl (unpackTag o).t (unpackTag o).m (unpackTag o).n
-
-mutual
-/-- every node satisfies `capQ`, every option word is below the tag base -/
-def capN (sl : Int → Bool) : Node → Bool
-  | .mk t o _ _ _ m n kids => decide (o < tagBase) && capQ sl t m n && capNs sl kids
-def capNs (sl : Int → Bool) : List Node → Bool
-  | [] => true
-  | x :: xs => capN sl x && capNs sl xs
-end
 
 mutual
 /-- the condition on the rewrite model's tree: group numbers of naked Ref / Capture / BackRefCond nodes and of
